@@ -1026,6 +1026,8 @@ def gen_UploadFacts():
     for p_ in [".upload_shard(&shard_prefix, &si.shard_hash, false, &data, &salt) .await?;", "while let Some(jh) = shard_uploads.join_next().await { jh??; }"]:
         if p_ not in up:
             raise TranslateError("upload_and_register_session_shards changed: %r" % p_)
+    if "let dry_run = self.dry_run;" not in up or "if dry_run { return Ok(()); }" not in up or not up.index("if dry_run { return Ok(()); }") < up.index(".upload_shard("):
+        raise TranslateError("upload_and_register_session_shards: a dry run no longer stops before the shard is uploaded and cached")
     # whatever the store answers to a successful upload (synced now / held already), the shard goes on to the cache
     m = re.search(r"shard_client \.upload_shard\(&shard_prefix, &si\.shard_hash, false, &data, &salt\) \.await\?; drop\(upload_permit\); info!\([^;]*\); let new_shard_path = si\.export_with_expiration\(", up)
     if not m:
